@@ -20,13 +20,22 @@ LEVEL_NOTE = ("contract of the written files and acceptance by test_consistency 
               "clause and the binary itself are exercised on every sampled triple")
 
 
+_CALLS = [0]
+
+
 def real_files(d, fn, layout, tag):
     """run the real design(..., just_files=True); returns {"ok": (st, eq, wc texts)} | {"err": class}"""
     from peppercompiler.design.spurious_design import design
-    temp = os.path.join(d, "t_%s_%s" % (tag, layout))
-    for ext in (".st", ".eq", ".wc", ".sp"):
-        if os.path.exists(temp + ext):
-            os.remove(temp + ext)
+    # every second run reuses one temp name per layout, so that the files of an earlier driver run (another document, usually
+    # of another length) are still there — as after --just-files / --keep-temp; the others write into fresh names
+    _CALLS[0] += 1
+    if _CALLS[0] % 2 == 0:
+        temp = os.path.join(d, "t_shared_%s" % ("a" if _CALLS[0] % 4 == 0 else layout))
+    else:
+        temp = os.path.join(d, "t_%s_%s" % (tag, layout))
+        for ext in (".st", ".eq", ".wc", ".sp"):
+            if os.path.exists(temp + ext):
+                os.remove(temp + ext)
     try:
         with core.quiet():
             design(os.path.join(d, "base_" + tag), fn, os.path.join(d, "out_%s.mfe" % tag), just_files=True,
